@@ -1001,6 +1001,33 @@ Proof.
   apply launch_shards_extend. exact H.
 Qed.
 
+(** the selection is set-valued: every ordered choice of [count] distinct candidates is what the loop
+    returns for some values of the random source (the indices themselves) *)
+Lemma pick_any suf : forall n pre,
+  sel_ok n (pre ++ suf) ->
+  pick_loop n (Z.of_nat (length (pre ++ suf))) pre suf = PDone (pre ++ suf) [].
+Proof.
+  induction suf as [|x suf IH]; intros n pre Hok; rewrite pick_loop_eq.
+  - rewrite app_nil_r. rewrite Z.eqb_refl. reflexivity.
+  - replace (Z.of_nat (length pre) =? Z.of_nat (length (pre ++ x :: suf)))%Z with false
+      by (rewrite app_length; cbn [length]; lia).
+    destruct Hok as [Hnd Hlt].
+    assert (Hx : x < n).
+    { rewrite Forall_forall in Hlt. apply Hlt. apply in_or_app. right. left. reflexivity. }
+    replace (n =? 0) with false by lia.
+    rewrite (N.mod_small x n Hx).
+    assert (Hnin : ~ In x pre).
+    { apply NoDup_remove_2 in Hnd. intros Hin. apply Hnd. apply in_or_app. left. exact Hin. }
+    apply memN_not_In in Hnin. rewrite Hnin.
+    specialize (IH n (pre ++ [x])). rewrite <- app_assoc in IH. cbn [app] in IH.
+    apply IH. split; assumption.
+Qed.
+
+Theorem pick_any_selection : forall n sl,
+  NoDup sl -> Forall (fun i => i < n) sl ->
+  pick_loop n (Z.of_nat (length sl)) [] sl = PDone sl [].
+Proof. intros n sl Hnd Hlt. apply (pick_any sl n []). split; assumption. Qed.
+
 (** pigeonhole: a residue that was not chosen yet *)
 Lemma fresh_index n selected :
   sel_ok n selected -> (length selected < N.to_nat n)%nat -> exists x, x < n /\ ~ In x selected.
